@@ -3,6 +3,8 @@ CONSTANTS
   Families = {"single", "pair", "triple", "big", "rand"}
   BufSizes = {256, 512, 4096}
   CompCfgs <- AllLevels
+  XBufSizes = {1, 16, 1000, 65536}
+  XCompCfgs <- QuickComp
   MultiBufSizes = {256, 4096}
   MultiCompCfgs <- ThoroughBig
   BigSizes = {1048577, 3500000}
